@@ -841,6 +841,10 @@ func c07Run(c *fw.Ctx) {
 	partChain(k, &idx)
 	partInstances(k, &idx)
 	k.flush()
+	partLargeLists(k, &idx)
+	partNonASCII(k, &idx)
+	partDecoded(k, &idx)
+	k.flush()
 	partRandom(k)
 	k.flush()
 }
@@ -877,6 +881,7 @@ func init() {
 		Rule: "Every case runs the real carddav.Match or carddav.Filter on deep copies and compares with a three-valued reference evaluator (true/false/⊥) that returns the envelope of all admissible readings. " +
 			"Exhaustive parts: (A) one prop-filter: outer test x inner test x is-not-defined x property {absent, 5 values} x all lists of 0..2 text-matches over 6 match types x negate x 5 needles, every 8th also through Filter; " +
 			"(B) two prop-filters over a reduced alphabet; (C) limits -1..len+1 over lists of 0..5 objects with every two- and three-valued match pattern; (D) projections: every subset of 6 requestable names x 16 cards. " +
+			"Further exhaustive parts: (I) long lists of 127..1025 (thorough: ..2049) objects x match patterns x limits around 1, len/2, the number of matches and len x address-data {none, FN}; (J) non-ASCII values and needles over a small alphabet of ideographs, accented letters and ASCII x every match type x negate; (K) cards that went through vcard.NewDecoder (hand-written vCard texts and re-encoded cards) under presence, text and projection queries. " +
 			"Random part: lists of 0..8 larger cards (hostile strings, multi-valued, groups, params) and queries, one Match per object plus one Filter per list. " +
 			"evaluations = calls of Match/Filter. distinct_nontrivial = distinct abstract keys of in-domain cases where a definite verdict was demanded: query structure (tests, flags, match types, negation) with, for single prop-filter Match cases, presence and the value/needle relation of every text-match, plus the model values; for Filter the limit class, projection class and per-object model values.",
 		Assumptions: []string{
@@ -886,7 +891,7 @@ func init() {
 			"is-not-defined together with text-matches or parameter filters (and a parameter filter with both is-not-defined and a text-match) is outside the domain (the types document they must be unset), and so is a prop-filter with an empty property name: only non-modification is checked",
 			"a test or match type that equals a known one up to ASCII case (\"ANYOF\", \"Equals\") may be treated as unknown or as that known value",
 			"several instances of a property: a verdict is demanded only where the readings 'the first instance in card order', 'some instance satisfies the filter' and 'each text-match is satisfied by some instance' agree (first instance matches -> true; nothing matches under any of them -> false)",
-			"parameter filters may be ignored or applied (their outcome is left free); property names and group prefixes may be compared exactly or case-insensitively; text may be compared exactly or ASCII-case-insensitively; on non-ASCII text only exact hits are demanded",
+			"parameter filters may be ignored or applied (their outcome is left free); property names and group prefixes may be compared exactly or case-insensitively; text may be compared exactly or ASCII-case-insensitively; on non-ASCII text exact hits are demanded, and misses only where no collation (octets, ASCII case map, Unicode case map = case folding + NFKD) can make a hit: both texts consist of ASCII and basic-block CJK ideographs (which have neither case nor decomposition), or the needle holds such an ideograph that the value lacks while the value has no other character at or above U+2E80",
 			"projection: a card without VERSION is outside the domain; ContentLength of a projected object is not constrained; Path, ETag and ModTime must be preserved; a requested name matching a card key only up to case may or may not be included",
 			"Match(nil, …) is not covered by the statement (only Filter with a nil query is)",
 			"paths are unique within a list (returned objects are identified by path)",
